@@ -131,6 +131,11 @@ impl EventInner {
         // skipped — those awaiters belong logically after this
         // `set()` returns and would otherwise observe a closed gate
         // yet still be notified.
+        // Verification hook (H6): yield point between publishing IS_SET and advancing the generation,
+        // used only by native replays of model-found schedules (`--cfg folo_verif`).
+        #[cfg(folo_verif)]
+        crate::folo_verif_hooks::yield_point("manual_set_after_fetch_or");
+
         self.slow.lock().expect(NEVER_POISONED).advance_generation();
         loop {
             let mut waiters = self.slow.lock().expect(NEVER_POISONED);
